@@ -26,10 +26,16 @@ ASSUMPTIONS = [
     "product <X_last Y_first> with Y applied first (the documented convention of Env2; its swap-gate contractions are not verified)",
     "chain lengths N = 2..5 (quick) / 2..7 (thorough); operator charges symbolic",
 ]
+import contracts.ops_algebra as OA
+from contracts.ops_algebra import h_onsite_algebra, h_operator_dicts
+
+BOUNDED_HARNESSES = {'h_onsite_algebra', 'h_operator_dicts'}
+
 NOT_DECIDED = [
     "generate_mpo / Generator / latex2term produce MPOs whose dense matrix is the Jordan-Wigner sum (SVD compression + string "
     "bookkeeping as a whole); measure_1site, rdm, sample probabilities; dense equality of any expectation value (floating point)",
-    "on-site (anti)commutation relations of the predefined operator families (bounded stand-in not built)",
+    "on-site (anti)commutation relations of the predefined operator families: only the bounded stand-in (h_onsite_algebra, "
+    "h_operator_dicts: exhaustive over families x symmetries, floating point) -- not a proof",
 ]
 
 
@@ -226,7 +232,7 @@ def h_measure_nsite(V, N, symname, fermionic, sites):
 
 
 def units(tier):
-    U = []
+    U = OA.units_c07(tier)
     th = tier == 'thorough'
     Ns = range(2, (7 if th else 5) + 1)
     for N in Ns:
